@@ -1,6 +1,6 @@
 (* Corr_hasher.v — engine `hasher`: MultihasherTable::{new, register, hash} with recording scripted
    hashers, against Hasher.v; C18 oracle on the implementation's outputs. *)
-From BS Require Import Bytes Cid Prefix Hasher.
+From BS Require Export Bytes Cid Prefix Hasher.
 Open Scope N_scope.
 
 (* the answer of one scripted hasher for the queried (code, data) *)
